@@ -21,7 +21,7 @@ RULE = ('Reachable removal-enabled states of both classes (histories of 1-10 acc
 ASSUMPTIONS = ['e > t', 'encodings whose newline is the single byte 0x0A (the reader splits the binary stream on it)',
                'node ids contain no delimiter, comment marker or whitespace; ASCII-only ids when encoding=ascii']
 TECHNIQUE = 'round-trip PBT over graph x delimiter x encoding x target kind, plus hand-written 3/4-column rows vs the model'
-BUDGET = {'quick': {'cases': 10000, 'seconds': 45}, 'thorough': {'cases': 120000, 'seconds': 540}}
+BUDGET = {'quick': {'cases': 10000, 'seconds': 45}, 'thorough': {'cases': 400000, 'seconds': 540}}
 KINDS = ['add', 'add', 'add', 'add', 'add', 'add_from', 'path', 'cycle', 'recip', 'recip']
 
 
